@@ -29,7 +29,7 @@ from pycardano.backend import ogmios_v5 as v5_mod
 from pycardano.backend import ogmios_v6 as v6_mod
 from pycardano.nativescript import NativeScript
 from pycardano.plutus import PlutusV1Script, PlutusV2Script, PlutusV3Script, RawPlutusData
-from pycardano.serialization import ByteString, RawCBOR
+from pycardano.serialization import ByteString, IndefiniteList, RawCBOR
 
 from vlib import core
 from vlib import values as V
@@ -40,7 +40,7 @@ KUPO_BASE = "http://kupo.stub:1442"
 
 # reference-script languages each adapter can return (0 = native, 1..3 = Plutus)
 SCRIPT_OK = {"blockfrost": {0, 1, 2, 3}, "ogmios_v5": {1, 2}, "ogmios_v6": {1, 2, 3}, "kupo": {1, 2, 3},
-             "cardano_cli": {1, 2}}
+             "cardano_cli": {0, 1, 2}}
 # (adapter, language) whose response shape is documented offline (installed client library / the envelope naming
 # of the canned response) and on which the adapter raises: recorded findings
 FINDINGS = {("ogmios_v6", 0): "KF-C20-ogmios6-native-refscript", ("cardano_cli", 3): "KF-C20-cli-plutusv3-refscript"}
@@ -137,7 +137,7 @@ def norm_prim(o):
         return ["bytes", o.value.hex()]
     if isinstance(o, (bytes, bytearray)):
         return ["bytes", bytes(o).hex()]
-    if isinstance(o, (list, tuple)):
+    if isinstance(o, (list, tuple, IndefiniteList)):
         return ["list", [norm_prim(x) for x in o]]
     if isinstance(o, dict):
         return ["map", [[norm_prim(a), norm_prim(b)] for a, b in o.items()]]
@@ -217,9 +217,15 @@ DATUM_FORMS = {
 }
 
 
-def gen_model(rng, adapter, address=None):
+def datum_forms(adapter):
+    """(judged forms, forms compared with the model only)"""
     forms = DATUM_FORMS[adapter]
-    sure, amb = forms[: forms.index("|")] if "|" in forms else forms, forms[forms.index("|") + 1:] if "|" in forms else []
+    cut = forms.index("|") if "|" in forms else len(forms)
+    return forms[:cut], forms[cut + 1:]
+
+
+def gen_model(rng, adapter, address=None):
+    sure, amb = datum_forms(adapter)
     r = rng.random()
     if r < 0.35:
         dform = "none"
@@ -287,8 +293,6 @@ def canonical(m, adapter):
     s = m["script"]
     if s is not None:
         if s["form"] != "plain" or s["lang"] not in SCRIPT_OK[adapter]:
-            return False
-        if s["lang"] == 0 and adapter == "cardano_cli":
             return False
     return True
 
@@ -358,6 +362,18 @@ def r_ogmios_v5(m):
              "datumHash": dh, "datum": inline, "script": script}], {"datums": {}, "scripts": {}}, None
 
 
+def native_ogmios(n):
+    """a native script in Ogmios' own JSON (ogmios-python model `ScriptNative`: clause / from / atLeast / slot)"""
+    t = n["type"]
+    if t == "sig":
+        return {"clause": "signature", "from": n["keyHash"]}
+    if t in ("all", "any"):
+        return {"clause": t, "from": [native_ogmios(x) for x in n["scripts"]]}
+    if t == "atLeast":
+        return {"clause": "some", "atLeast": n["required"], "from": [native_ogmios(x) for x in n["scripts"]]}
+    return {"clause": t, "slot": n["slot"]}
+
+
 def r_ogmios_v6(m):
     out = {"transaction": {"id": m["txid"]}, "index": m["index"], "address": m["address"],
            "value": {"ada": {"lovelace": int(m["coin"])}, **{p: {n: int(q) for n, q in a} for p, a in m["ma"]}}}
@@ -369,7 +385,8 @@ def r_ogmios_v6(m):
         out["datum"] = datum_cbor(m["datum_tree"]).hex()
     sc = m["script"]
     if sc:
-        out["script"] = {"language": "native", "json": sc["native"]} if sc["lang"] == 0 else \
+        out["script"] = {"language": "native", "json": native_ogmios(sc["native"]),
+                         "cbor": NativeScript.from_dict(sc["native"]).to_cbor_hex()} if sc["lang"] == 0 else \
             {"language": f"plutus:v{sc['lang']}", "cbor": script_wire(sc, "ogmios_v6")}
     return out, {"datums": {}, "scripts": {}}, None
 
@@ -633,7 +650,7 @@ def dump_utxo(u):
         lang = 1 if isinstance(out.script, PlutusV1Script) else 2 if isinstance(out.script, PlutusV2Script) else 3
         s = {"lang": lang, "bytes": bytes(out.script).hex()}
     elif isinstance(out.script, NativeScript):
-        s = {"lang": 0, "native": out.script.to_dict()}
+        s = {"lang": 0, "native": out.script.to_cbor_hex()}
     elif out.script is not None:
         s = {"other": type(out.script).__name__}
     return {"txid": u.input.transaction_id.payload.hex(), "index": u.input.index, "address": str(out.address),
@@ -666,7 +683,7 @@ def model_image(mu):
         if "bytes" in body:
             s = {"lang": lang, "bytes": body["bytes"]}
         else:   # the JSON subtree handed to NativeScript.from_dict
-            s = {"lang": 0, "native": NativeScript.from_dict(dec(body["json"])).to_dict()}
+            s = {"lang": 0, "native": NativeScript.from_dict(dec(body["json"])).to_cbor_hex()}
     return {"txid": mu["txid"], "index": int(mu["index"]), "address": mu["address"], "coin": mu["coin"],
             "ma": V.canon_ma(mu["ma"]), "datum_hash": mu["datum_hash"], "datum": d, "script": s}
 
@@ -686,8 +703,7 @@ def expected(m, adapter):
     e = {"txid": m["txid"], "index": m["index"], "address": m["address"], "coin": int(m["coin"]),
          "assets": {f"{p}.{n}": int(q) for p, a in m["ma"] for n, q in a}}
     df = m["dform"]
-    amb = DATUM_FORMS[adapter]
-    if "|" not in amb or df in amb[: amb.index("|")]:
+    if df in datum_forms(adapter)[0]:
         e["datum_hash"] = m["datum_hash"] if df == "hash" else None
         if df in ("inline", "inline_nohash"):
             e["datum"] = {"tree": norm_tree(m["datum_tree"])} if adapter == "cardano_cli" else \
@@ -698,7 +714,8 @@ def expected(m, adapter):
     if sc is None:
         e["script"] = None
     elif sc["lang"] == 0:
-        e["script"] = {"lang": 0, "native": NativeScript.from_dict(sc["native"]).to_dict()}
+        if adapter != "cardano_cli":        # how cardano-cli reports a simple script is not known offline
+            e["script"] = {"lang": 0, "native": NativeScript.from_dict(sc["native"]).to_cbor_hex()}
     else:
         e["script"] = {"lang": sc["lang"], "bytes": sc["bytes"]}
     return e
@@ -716,6 +733,7 @@ def check_valid(ctx, case):
             if canonical(m, adapter):
                 lw = drv.ok({"op": "backend.render", "adapter": adapter, "u": lean_model(m, adapter), "aux": lean_aux(m)})
                 ctx.traces += 1
+                ctx.count("render-crosschecked-with-lean")
                 if lw != w:
                     ctx.diff("backend.render/" + adapter, {"kind": "valid", "adapter": adapter, "utxos": [m]}, lw, w)
     status, res = rig().utxos(adapter, address, wires)
@@ -757,7 +775,8 @@ def check_valid(ctx, case):
                 if all("ok" in r for r in mres):
                     ctx.diff("backend.parse/" + adapter, case, mres, {"err": res})
             fid = FINDINGS.get((adapter, sc["lang"]))
-            if fid and len(models) == 1:
+            if fid and len(models) == 1 and \
+                    rig().utxos(adapter, address, [wire(adapter, {**models[0], "script": None})])[0] == "ok":
                 ctx.pending_findings.setdefault(fid, (f"{adapter}: a UTxO carrying a reference script of language "
                                                       f"{sc['lang']} makes utxos() raise {res}", case, "a UTxO", res))
             return
@@ -774,12 +793,14 @@ def check_valid(ctx, case):
         one = {"kind": "valid", "adapter": adapter, "utxos": [m]} if len(models) > 1 else case
         exp = expected(m, adapter)
         got = {"txid": du["txid"], "index": du["index"], "address": du["address"], "coin": int(du["coin"]),
-               "assets": assets_dict(du["ma"]), "script": du["script"]}
-        for k in ("datum_hash", "datum"):
+               "assets": assets_dict(du["ma"])}
+        for k in ("datum_hash", "datum", "script"):
             if k in exp:
                 got[k] = du[k]
             else:
                 ctx.skipped += 1      # ambiguous service shape: compared with the model only
+        if adapter == "kupo" and m["dform"] == "inline" and du["datum"] is not None and du["datum_hash"] is not None:
+            ctx.count("observed:kupo-inline-datum-returned-with-datum_hash")     # Lean: kupo_inline_datum_gets_datum_hash
         if got != exp:
             bad = [k for k in exp if got.get(k) != exp[k]]
             ctx.violation(f"{adapter}: returned UTxO differs from the reported one in {', '.join(bad)}", one,
@@ -878,24 +899,20 @@ def gen_malformed(rng, adapter):
     elif what == "short-policy":
         put(cur[2:])                                   # 27-byte policy (Blockfrost: unit shorter by one byte)
     elif what == "long-name":
-        put(cur + "00" * 33 if adapter == "blockfrost" or "." in cur or len(cur) != 56 or role == "value"
-            else cur + "." + "00" * 33)
+        put(cur + "." + "00" * 33 if adapter in ("kupo", "ogmios_v5") and "." not in cur else cur + "00" * 33)
     elif what == "upper-hex":
         put(cur.upper())
     elif what == "unknown-key":
         tgt = main[1] if adapter == "ogmios_v5" else main
-        tgt["x_unknown"] = rng.choice([1, "a", None, {"y": 2}])
+        if rng.random() < 0.5:
+            tgt["x_unknown"] = rng.choice([1, "a", None, {"y": 2}])
+        else:       # inside the value object: the nested-map adapters take it for a policy
+            (tgt["value"] if "value" in tgt else tgt["amount"][0])["x_unknown"] = rng.choice([{}, {"aa": 1}, 1])
     elif what == "missing-key":
-        tgt = main[1] if adapter == "ogmios_v5" else main
-        cand = [x for x in tgt if x not in ("tx_index", "block", "transaction_index", "created_at", "address",
-                                            "datum_type", "script_hash", "datumHash", "script", "datumhash", "datum",
-                                            "inlineDatum", "inlineDatumhash", "referenceScript", "inline_datum",
-                                            "reference_script_hash", "index", "output_index", "transaction")]
-        if adapter == "ogmios_v5":
-            cand.append("datum")
-        if not cand:
-            return None
-        del tgt[rng.choice(cand)]
+        tgt = rng.choice(main) if adapter == "ogmios_v5" else main
+        if rng.random() < 0.3 and isinstance(tgt.get("value"), dict):
+            tgt = tgt["value"]
+        del tgt[rng.choice(list(tgt))]
     elif what == "string-quantity":
         if adapter == "blockfrost":
             main["amount"][1]["quantity"] = int(main["amount"][1]["quantity"])     # a JSON number instead of a string
@@ -954,6 +971,15 @@ def corpus(rng):
     policies, 2^63, every datum / script form"""
     out = []
     p1, p2 = "11" * 28, "22" * 28
+    plain = {"txid": "ab" * 32, "index": 0, "address": "addr_test1vqqszqgpqyqszqgpqyqszqgpqyqszqgpqyqszqgpqyqszqgasfzjt",
+             "coin": "2000000", "ma": [], "dform": "none", "datum_tree": None, "datum_hash": None,
+             "inline_hash": "00" * 32, "script": None, "var": {"order": None, "empty_dot": False}}
+    # witnesses of the recorded findings: an ADA-only UTxO carrying a reference script
+    out.append({"kind": "valid", "adapter": "ogmios_v6", "utxos": [{**plain, "script": {
+        "lang": 0, "native": {"type": "sig", "keyHash": "33" * 28}, "hash": "44" * 28, "form": "plain"}}]})
+    out.append({"kind": "valid", "adapter": "cardano_cli", "utxos": [{**plain, "script": {
+        "lang": 3, "bytes": "46010000222499", "hash": b2b(bytes([3]) + bytes.fromhex("46010000222499"), 28).hex(),
+        "form": "plain"}}]})
     for adapter in ADAPTERS:
         base = gen_model(rng, adapter)
         base.update({"dform": "none", "datum_tree": None, "datum_hash": None, "script": None,
@@ -999,8 +1025,8 @@ def run(ctx):
     try:
         for c in corpus(rng):
             dispatch(ctx, c)
-        n = ctx.budget(450, 20000)
-        n_bad = ctx.budget(120, 3000)
+        n = ctx.budget(1500, 20000)
+        n_bad = ctx.budget(400, 4000)
         for adapter in ADAPTERS:
             for _ in range(n):
                 k = 1 if rng.random() < 0.8 else rng.randint(2, 3)
@@ -1021,9 +1047,13 @@ def run(ctx):
                 if len(ctx.violations) > 20:
                     break
             for _ in range(n_bad):
+                if len(ctx.violations) > 20:
+                    break
                 c = gen_malformed(rng, adapter)
                 if c is not None:
                     dispatch(ctx, c)
+            if len(ctx.violations) > 20:
+                break
         flush_findings(ctx)
     finally:
         rig().close()
